@@ -178,6 +178,23 @@ func VH_C01_InfoForkRoundTrip() {
 	vAssert("comment3_empty", len(d3.Comment) == 0)
 }
 
+// The comment over its whole 16-bit range (name of every length 0..2): offsets 74+name+comment exceed 65535, so any
+// offset arithmetic done in 16 bits shows up here.
+func VH_C01_InfoForkRoundTripLongComment() {
+	f, ref := c01FFIFWith(vBytesEach("name", 2), vBytes("comment", 65535))
+	var d FlatFileInformationFork
+	n, err := d.Write(ref)
+	vAssert("decode_ok", err == nil && n == len(ref))
+	vAssertEqBytes("name", d.Name, f.Name)
+	vAssertEqBytes("comment", d.Comment, f.Comment)
+	var d2 FlatFileInformationFork
+	vAssert("unmarshal_ok", d2.UnmarshalBinary(ref) == nil)
+	vAssertEqBytes("name2", d2.Name, f.Name)
+	vAssertEqBytes("comment2", d2.Comment, f.Comment)
+	sz := f.Size()
+	vAssert("info_size_is_length", int(sz[0])<<24|int(sz[1])<<16|int(sz[2])<<8|int(sz[3]) == len(ref))
+}
+
 // ---- flattened file object header: FILP(24) INFO hdr(16) info fork DATA hdr(16) ----------------------------
 
 func c01FFO() (*flattenedFileObject, []byte) { return c01FFOWith(c01FFIFSmallComment()) }
